@@ -173,6 +173,8 @@ impl JobManager {
 
     /// Polls all managed jobs for completion.
     pub fn poll(&mut self) -> Result<Vec<JobResult>, error::Error> {
+        #[cfg(feature = "verif-hooks")]
+        crate::verif::pause("job_poll");
         let mut results = Vec::with_capacity(self.jobs.len());
 
         let mut i = 0;
